@@ -172,13 +172,42 @@ def decoy_px(px):
     return [[p[0], p[1]] + [v + 1 for v in p[2:]] for p in px]
 
 
-def place(path, table, px, mode="symm", at=None, cols=("count",), names=None, **kw):
+def prior_px(px):
+    """Other content with other row offsets: every second pixel, values + 2."""
+    return [[p[0], p[1]] + [v + 2 for v in p[2:]] for k, p in enumerate(px) if k % 2 == 0]
+
+
+def read_everything(uri):
+    """What an earlier stage of a pipeline may have done with the path: read it completely through the public API."""
+    import cooler
+    c = cooler.Cooler(uri)
+    c.matrix(balance=False)[:, :]
+    c.matrix(balance=False, sparse=True)[:, :]
+    c.matrix(balance=False, as_pixels=True)[:, :]
+    c.pixels()[:]
+    c.bins()[:]
+    c.chroms()[:]
+    for nm in c.chromnames:
+        c.extent(nm)
+        c.matrix(balance=False).fetch(nm)
+    return c.info
+
+
+def place(path, table, px, mode="symm", at=None, cols=("count",), names=None, prior=False, **kw):
     """Create the cooler of a case at the root of `path`, or - if `at` names a group - at path::at next to a DECOY
-    collection with other content at the root of the same file.  Returns the URI of the real collection."""
+    collection with other content at the root of the same file.  With `prior`, the same URI first holds ANOTHER collection
+    (other pixels, other row offsets) that is read completely through the API in this process before it is replaced.
+    Returns the URI of the real collection."""
     if not at or at == "/":
+        if prior:
+            make_cooler(path, table, prior_px(px), mode, cols, names, **kw)
+            read_everything(path)
         make_cooler(path, table, px, mode, cols, names, **kw)
         return path
     make_cooler(path, table, decoy_px(px), mode, cols, names, **kw)
     uri = path + "::" + at
+    if prior:
+        make_cooler(uri, table, prior_px(px), mode, cols, names, mode_="a", **kw)
+        read_everything(uri)
     make_cooler(uri, table, px, mode, cols, names, mode_="a", **kw)
     return uri
